@@ -68,11 +68,21 @@ def run_c06(chk):
         vals = sorted(set(v for _, _, m in mats for r in m for v in r))
         t = rng.choice(vals + [0.3, 0.5, 0.45, 0.75]) if method != 'turchin' else rng.choice([0.0, 0.5, 0.9])
         ref = 'customid'
+        used = []
+        orig_gm = lex._get_matrices
+
+        def spy_gm(*a, _orig=orig_gm, **k):
+            for item in _orig(*a, **k):
+                used.append((item[0], list(item[1]), [list(r) for r in item[2]]))
+                yield item
+        lex._get_matrices = spy_gm
         try:
             lex.cluster(method=method, cluster_method=link, threshold=t, ref=ref, override=True)
         except Exception as ex:  # noqa
             fails.append((d, method, link, t, 'cluster raised %s: %s' % (type(ex).__name__, str(ex)[:100])))
             continue
+        finally:
+            del lex._get_matrices
         ids = {k: lex[k, ref] for k in lex}
         chk.count((method, link, t, tuple(sorted((k, tuple(map(str, v))) for k, v in d.items()))),
                   len(set(ids.values())) < len(ids), branch=['method:' + method, 'link:' + link])
@@ -93,7 +103,7 @@ def run_c06(chk):
                                           restriction='', external_scorer=False)
             except Exception:  # noqa
                 fn = None
-            for c, idx, m in mats:
+            for c, idx, m in (used or mats):        # the matrices cluster() itself asked for (with its own keywords)
                 for i in range(len(idx)):
                     for j in range(i + 1, len(idx)):
                         if fn is None or e:
@@ -105,6 +115,12 @@ def run_c06(chk):
                         chk.evaluations += 1
                         if lex[idx[i], 'tokens'] == lex[idx[j], 'tokens']:
                             chk.hist['pair of identical forms in one concept (%s)' % method] += 1
+                        if method == 'edit-dist' and dij != 100:
+                            ta, tb = list(lex[idx[i], 'tokens']), list(lex[idx[j], 'tokens'])
+                            lev = py_lev(ta, tb) / max(len(ta), len(tb))
+                            if abs(lev - dij) > 1e-12:
+                                e = ('concept %r: the edit-dist distance of %r and %r is %r, the normalised Levenshtein distance is %r'
+                                     % (c, ta, tb, dij, lev))
                         if not (m[i][j] == dij and m[j][i] == dij):
                             e = ('concept %r: the matrix that is clustered has %r for words %d %r and %d %r, the %s distance of the pair is %r'
                                  % (c, m[i][j], idx[i], lex[idx[i], 'tokens'], idx[j], lex[idx[j], 'tokens'], method, dij))
@@ -190,7 +206,7 @@ def run_c06(chk):
 def cognate_threshold_pairs(chk):
     """C10, cognate clause: LexStat.cluster at t1 <= t2 with the same method/linkage gives nested sets"""
     rng = chk.rng
-    fails = []
+    fails, mech = [], []
     n = chk.n(500, 12000)
     for it in range(n):
         method = rng.choice(METHODS) if it % 10 == 0 else rng.choice(METHODS[:3])
@@ -201,17 +217,80 @@ def cognate_threshold_pairs(chk):
         link = rng.choice(cl.LINKS)
         mats = matrices_of(lex, method)
         vals = sorted(set(v for _, _, m in mats for r in m for v in r)) + [0.3, 0.55, 0.8]
-        t1, t2 = sorted([rng.choice(vals), rng.choice(vals)])
-        lex.cluster(method=method, cluster_method=link, threshold=t1, ref='customid', override=True)
-        lex.cluster(method=method, cluster_method=link, threshold=t2, ref='lingpyid', override=True)
-        p1 = partition_of({k: lex[k, 'customid'] for k in lex}, list(lex))
-        p2 = partition_of({k: lex[k, 'lingpyid'] for k in lex}, list(lex))
-        chk.count(('cog-pair', method, link, t1, t2, tuple(sorted((k, tuple(map(str, v))) for k, v in d.items()))), p1 != p2,
+        # several thresholds on one object: every earlier partition must be nested in every later one; and the distances that are
+        # clustered must be the same at every threshold (the statement is about the same scoring function)
+        ts = sorted(set(rng.choice(vals) for _ in range(5)))
+        if len(ts) < 2:
+            ts = sorted(set(ts + [0.3, 0.8]))
+        parts, used = [], []
+        orig = lex._get_matrices
+
+        def spy(*a, _orig=orig, **k):
+            for item in _orig(*a, **k):
+                used[-1].append([list(r) for r in item[2]])
+                yield item
+        lex._get_matrices = spy
+        try:
+            for t in ts:
+                used.append([])
+                lex.cluster(method=method, cluster_method=link, threshold=t, ref='customid', override=True)
+                parts.append(partition_of({k: lex[k, 'customid'] for k in lex}, list(lex)))
+        finally:
+            del lex._get_matrices
+        chk.count(('cog-pair', method, link, tuple(ts), tuple(sorted((k, tuple(map(str, v))) for k, v in d.items()))), parts[0] != parts[-1],
                   branch='cognate-threshold-pair:' + method)
-        if not cl.refines(p1, p2):
-            fails.append((d, method, link, t1, t2, p1, p2))
+        hit = False
+        for i in range(len(ts)):
+            for j in range(i + 1, len(ts)):
+                if not hit and not cl.refines(parts[i], parts[j]):
+                    fails.append((d, method, link, ts[i], ts[j], parts[i], parts[j]))
+                    hit = True
+        if not hit and any(u != used[0] for u in used[1:]):
+            mech.append((d, method, link, ts))
     chk.obligation('oracle:cognate sets at t1 are nested in cognate sets at t2', 'correspondence', not fails,
                    'pairs=%d failures=%d' % (n, len(fails)))
+    chk.obligation('correspondence:the per-concept distances that LexStat.cluster hands to the clusterer do not depend on the threshold', 'correspondence',
+                   not mech, 'objects=%d with threshold-dependent distances=%d' % (n, len(mech)))
+    if mech and not fails:
+        # the mechanism is broken: search for sets that are not nested (same method, every linkage, every distinct distance as a threshold)
+        method = mech[0][1]
+        for _ in range(chk.n(400, 4000)):
+            if fails:
+                break
+            try:
+                if method == 'lexstat':
+                    d, lex = make_lexstat(rng, need_scorer=True)
+                else:
+                    # few concepts with many words of clearly different lengths over a small inventory
+                    from lingpy import LexStat
+                    d = {0: ['doculect', 'concept', 'ipa']}
+                    k = 1
+                    for c in ['hand', 'foot'][:rng.choice([1, 2])]:
+                        for l in wlgen.LANGS[:rng.randrange(4, 8)]:
+                            for _s in range(rng.choice([1, 1, 2])):
+                                d[k] = [l, c, ''.join(rng.choice('ptk') + rng.choice('ai') for _ in range(rng.randrange(1, 5)))]
+                                k += 1
+                    lex = LexStat(d)
+            except Exception:
+                continue
+            vals = sorted(set(v for _, _, m in matrices_of(lex, method) for r in m for v in r))
+            ts = sorted(set(vals + [(a + b) / 2 for a, b in zip(vals, vals[1:])]))[:16]
+            for link in cl.LINKS:
+                parts = []
+                for t in ts:
+                    lex.cluster(method=method, cluster_method=link, threshold=t, ref='customid', override=True)
+                    parts.append(partition_of({k: lex[k, 'customid'] for k in lex}, list(lex)))
+                    chk.evaluations += 1
+                bad_pair = [(i, j) for i in range(len(ts)) for j in range(i + 1, len(ts)) if not cl.refines(parts[i], parts[j])]
+                if bad_pair:
+                    i, j = bad_pair[0]
+                    fails.append((d, method, link, ts[i], ts[j], parts[i], parts[j]))
+                    break
+    if mech and not fails:
+        f = mech[0]
+        chk.violation('LexStat.cluster(%s,%s): the distance matrices that are clustered differ between thresholds %r; no pair of thresholds with sets that are not nested was found' % (f[1], f[2], f[3]),
+                      {'kind': 'cognate-mechanism', 'dict': {str(k): v for k, v in f[0].items()}, 'method': f[1], 'link': f[2], 'thresholds': f[3],
+                       'broken': 'correspondence:threshold-independent distances'}, found_input=False)
     for f in fails[:1]:
         chk.violation('LexStat.cluster(%s,%s): sets at %r are not nested in sets at %r' % (f[1], f[2], f[3], f[4]),
                       {'kind': 'cognate-pair', 'dict': {str(k): v for k, v in f[0].items()}, 'method': f[1], 'link': f[2],
